@@ -2,16 +2,24 @@
   C03 — The schedule is causal: state at step k depends only on input up to step k.   (proof, partial)
 
   What is proved (for every schedule length, every cut, every tail):
-    * the ScheduleDeck partition of the past does not depend on the future (`blocks_prefix`);
-    * the core keyword semantics (WELSPECS, COMPDAT, WCONPROD, WCONINJE, WELOPEN, WELTARG, WEFAC,
-      GRUPTREE, GEFAC, GCONPROD, ACTIONX registry) is causal end to end (`causal`);
+    * the ScheduleDeck partition of the past does not depend on the future (`blocks_prefix`), also
+      for restarted runs: the skipped part contributes exactly its white-listed keywords to block 0
+      (`blocks_restart_skipped`) and after the restart time every closed block is final
+      (`blocks_prefix_restart`); `blocks_norestart` ties the two models;
+    * the keyword semantics of `Model/SchedCore.lean` (23 record operations: WELSPECS incl. regrouping
+      and head change, COMPDAT, COMPLUMP, WPIMULT immediate/deferred, WELOPEN, WCONPROD, WCONINJE,
+      WCONHIST, WCONINJH, WHISTCTL, WELTARG, WEFAC, WECON, WTEST, WLIST, GRUPTREE, GEFAC, GCONPROD,
+      GCONINJE, NEXTSTEP, UDQ and ACTIONX registries) is causal end to end (`causal`);
     * the copy-on-write discipline: effect traces without in-place writes to shared objects and
       without writes to globals a snapshot reads leave all earlier snapshots unchanged
       (`cow_frame`, `cow_frame_blocks`);
-    * every site of the real handlers that can break that discipline is in an explicit
-      allow-list (`handlers_cow_safe`, over the table regenerated from the sources).
-  What is only observed (property mode on the real code): all other keywords (≈190 handlers),
-  the restart/SKIPREST variant of the partition, members outside the observation record.
+    * every site of the real handlers that can break that discipline — non-const references into
+      a snapshot, any selector of `snapshots` other than the current step, container-level mutations
+      of the snapshot vector, uses of names bound from an earlier snapshot, global writes — is safe
+      by class or in an explicit allow-list (`handlers_cow_safe`, over the table regenerated from
+      the sources).
+  What is only observed (property mode on the real code): all other keywords (≈175 handlers),
+  members outside the observation record, the state loaded from a restart file.
 -/
 import OpmVerif.Proofs.SchedCore
 import OpmVerif.Proofs.SchedHeap
@@ -135,8 +143,8 @@ def allowList : List (String × String × String × String) := [
   ("Schedule::filterConnections", "refShared", "all", "same: deliberately all snapshots, not a keyword handler"),
   ("Schedule::addGroup", "refShared", "cur", "RstGroup overload (restart only): FIELD controls from the restart file"),
   ("Schedule::load_rst", "refShared", "cur", "restart only: earlier snapshots are empty placeholders"),
-  ("Schedule::applyWellProdIndexScaling", "refShared", "other:step", "run-time PI scaling of step n and later, in place BY DESIGN for later steps; reaches earlier snapshots through shared objects — finding C04/welpi, see design.d/C04.md"),
-  ("Schedule::applyWellProdIndexScaling", "innerShared", "shared", "same finding"),
+  ("Schedule::applyWellProdIndexScaling", "refShared", "other:step", "run-time PI scaling of step n and later, in place BY DESIGN for later steps (the caller installs independent WellConnections copies first, see design.d/C04.md)"),
+  ("Schedule::applyWellProdIndexScaling", "innerShared", "shared", "same: run-time PI scaling of steps >= reportStep"),
   ("Schedule::serializationTestObject", "snapContainer", "operator=", "fresh local test object `result`, not the schedule being built"),
   ("Schedule::applyKeywords", "snapContainer", "resize", "C04 mechanism: resize(reportStep+1) drops the snapshots AFTER reportStep before re-iterating from it; snapshots 0..reportStep are kept (modelled in SchedAction)"),
   ("Schedule::applyAction", "snapContainer", "resize", "C04 mechanism: resize(reportStep+1) drops the snapshots AFTER reportStep before re-iterating from it; snapshots 0..reportStep are kept (modelled in SchedAction)"),
